@@ -98,6 +98,10 @@ def gen_msd_text(rng, fmt=None):
     if fmt == "ssc" or (fmt == "any" and rng.random() < 0.4):
         if rng.random() < 0.85:
             param(_case(rng, "VERSION"), ["0.83"])
+    elif fmt == "any" and rng.random() < 0.08:
+        # a first key that nearly is VERSION (the rule says: exactly VERSION, in any letter case)
+        param(rng.choice(["VERS\u0130ON", "vers\u0130on", "VERSIONS", "versions", "VERSION2", " VERSION",
+                          "XVERSION", "VERSIO", "VERSI\u00d6N"]), ["0.83"])
     nparams = rng.randint(0, 6) if rng.random() < 0.97 else rng.randint(20, 80)
     used = []
     for _ in range(nparams):
@@ -373,7 +377,10 @@ class StubTextIO(typing.TextIO):
     def read(self, n=-1):
         self.reads += 1
         if n is None or n < 0:
-            n = len(self._text) - self._pos
+            # the io contract: a negative or missing size reads until end of file
+            s = self._text[self._pos:]
+            self._pos = len(self._text)
+            return s
         n = min(n, self._chunk)
         if self._rng is not None and n > 1:
             n = self._rng.randint(1, n)
